@@ -4,6 +4,8 @@
 package solver
 
 import (
+	"os"
+	"sync/atomic"
 	"bufio"
 	"fmt"
 	"io"
@@ -56,6 +58,7 @@ type Solver struct {
 	isDef      map[int]bool
 	pendingPop bool
 	curMS      int
+	logf       *os.File
 }
 
 type level struct {
@@ -304,7 +307,18 @@ func (s *Solver) Assert(t *sym.Term) {
 	lv.asserts = append(lv.asserts, t)
 }
 
+var smtLogSeq int32
+
 func (s *Solver) flush() error {
+	if dir := os.Getenv("VERIF_SMTLOG"); dir != "" {
+		if s.logf == nil {
+			n := atomic.AddInt32(&smtLogSeq, 1)
+			s.logf, _ = os.Create(fmt.Sprintf("%s/solver-%d-%d.smt2", dir, os.Getpid(), n))
+		}
+		if s.logf != nil {
+			fmt.Fprintf(s.logf, "; t=%s\n%s", time.Now().Format("15:04:05.000"), s.buf.String())
+		}
+	}
 	_, err := io.WriteString(s.in, s.buf.String())
 	s.buf.Reset()
 	return err
